@@ -59,7 +59,24 @@ type seqCase struct {
 	LoadMode  int   `json:"load_mode,omitempty"`
 	LoadOrder []int `json:"load_order,omitempty"`
 	TF    uint64    `json:"tf"`
+	// Reloads: immediately before operation At the case's own rules are loaded again (fresh objects;
+	// whole set, or the rules of the resource of operation At) together with one rule of a strategy
+	// pair served by a generator the harness registered; that generator is called in the middle of the
+	// rebuild and executes the next N operations from inside it (requests decided while a reload is
+	// in progress), then yields no controller - or panics (the load fails). Every rule is unchanged,
+	// so nothing about the case's decisions, windows or final state may differ.
+	Reloads []reloadT `json:"reloads_in_progress,omitempty"`
 }
+
+type reloadT struct {
+	At    int  `json:"before_op"`
+	N     int  `json:"ops_inside_generator"`
+	Whole bool `json:"whole_set"`
+	Fail  bool `json:"generator_panics"`
+}
+
+// genAct is what the harness-registered flow generator does when the rebuild calls it (one shot).
+var genAct func()
 
 type obsT struct {
 	Kind string `json:"kind"` // pass | block | none
@@ -250,6 +267,26 @@ func genSeq(r *rng.R, id int) seqCase {
 	c.TF = now + uint64(r.PickI(0, 0, 1, 499, 500, 1000, 9999, 10000, 30000))
 	c.LoadMode = int(r.PickI(0, 0, 1, 1, 2))
 	c.LoadOrder = r.Perm(c.NRes)
+	// reloads in progress (drawn last: the rest of the case is what it was without them)
+	if r.Chance(2, 5) {
+		at := 0
+		for k := 0; k < 2 && at < len(c.Ops); k++ {
+			at += r.Intn(len(c.Ops) - at)
+			// start at a request on a resource that has rules
+			for at < len(c.Ops) && !(c.Ops[at].Kind == "enter" && len(c.Rules[c.Ops[at].Res]) > 0) {
+				at++
+			}
+			if at >= len(c.Ops) {
+				break
+			}
+			n := 1 + r.Intn(4)
+			if at+n > len(c.Ops) {
+				n = len(c.Ops) - at
+			}
+			c.Reloads = append(c.Reloads, reloadT{At: at, N: n, Whole: r.Bool(), Fail: r.Chance(1, 3)})
+			at += n
+		}
+	}
 	return c
 }
 
@@ -341,7 +378,8 @@ func runSeq(c seqCase, clk *vclock.Clock) (obs []obsT, nodeAfter []int64, fin []
 	}
 	loadAll(c.Rules, c.LoadMode != 0)
 	entries := make([]*base.SentinelEntry, len(c.Ops))
-	for i, o := range c.Ops {
+	execOp := func(i int) {
+		o := c.Ops[i]
 		clk.SetMs(o.T)
 		switch o.Kind {
 		case "enter":
@@ -361,6 +399,51 @@ func runSeq(c seqCase, clk *vclock.Clock) (obs []obsT, nodeAfter []int64, fin []
 		}
 		v, _ := nodePass(c.ID, o.Res)
 		nodeAfter = append(nodeAfter, v)
+	}
+	for i := 0; i < len(c.Ops); {
+		var rl *reloadT
+		for k := range c.Reloads {
+			if c.Reloads[k].At == i {
+				rl = &c.Reloads[k]
+			}
+		}
+		if rl == nil {
+			execOp(i)
+			i++
+			continue
+		}
+		// the unchanged rules again + the rule of the harness-registered generator, which runs the next
+		// operations from inside the rebuild
+		first, n, ran := i, rl.N, false
+		genAct = func() {
+			ran = true
+			for j := first; j < first+n; j++ {
+				execOp(j)
+			}
+			if rl.Fail {
+				panic("generator failure injected by the harness")
+			}
+		}
+		ri := c.Ops[i].Res
+		g := &flow.Rule{ID: "g" + strconv.Itoa(i), Resource: resName(c.ID, ri), TokenCalculateStrategy: 5, ControlBehavior: 4, Threshold: 1e15}
+		var err error
+		if rl.Whole {
+			_, err = flow.LoadRules(append(mkRules(c.ID, c.Rules), g))
+		} else {
+			one := make([][]ruleT, len(c.Rules))
+			one[ri] = c.Rules[ri]
+			_, err = flow.LoadRulesOfResource(resName(c.ID, ri), append(mkRules(c.ID, one), g))
+		}
+		genAct = nil
+		if (err != nil) != (rl.Fail && ran) {
+			panic(fmt.Sprintf("case %d: reload before op %d: err=%v, generator called=%v, failing=%v", c.ID, i, err, ran, rl.Fail))
+		}
+		if !ran {
+			for j := first; j < first+n; j++ {
+				execOp(j)
+			}
+		}
+		i += n
 	}
 	clk.SetMs(c.TF)
 	fin = finalState(c.ID, c.NRes)
@@ -1008,9 +1091,46 @@ func main() {
 		}
 	}
 	dist := emit.NewDistinct()
+	// a user generator for the strategy pair 5/4: does what the current case says, yields no controller
+	if err := flow.VerifSetGenerator(5, 4, func(*flow.Rule) error {
+		if f := genAct; f != nil {
+			genAct = nil
+			f()
+		}
+		return fmt.Errorf("the harness-registered generator yields no controller")
+	}); err != nil {
+		panic(err)
+	}
 	runOneSeq := func(id int, corr bool) {
 		c := genSeq(root.Fork(uint64(id)), id)
-		obs, nodeAfter, fin := runSeq(c, clk)
+		var obs []obsT
+		var nodeAfter []int64
+		var fin []finT
+		crashed := false
+		func() {
+			// the harness never crashes on a mutant: a panic of the code under test is a monitor failure
+			defer func() {
+				if x := recover(); x != nil {
+					genAct = nil
+					crashed = true
+					rep.Fail(c.ID, "C02_no_panic", "load-or-request-panicked", fmt.Sprint("the case panicked: ", x), c)
+					flow.ClearRules()
+				}
+			}()
+			obs, nodeAfter, fin = runSeq(c, clk)
+		}()
+		if crashed {
+			return
+		}
+		if len(c.Reloads) > 0 {
+			rep.Count("cases_with_reload_in_progress", 1)
+			for _, rl := range c.Reloads {
+				rep.Count("requests_or_exits_inside_a_reload", rl.N)
+				if rl.Fail {
+					rep.Count("reloads_failing_in_the_generator", 1)
+				}
+			}
+		}
 		rep.Evaluations++
 		nt, st := monitorSeq(c, obs, nodeAfter, fin, rep)
 		if nt {
